@@ -70,7 +70,7 @@ func (g *glFunc) bad(n ast.Node, what string) string {
 // full with white space collapsed
 func exprText(e ast.Expr) string {
 	t := types.ExprString(e)
-	if !strings.Contains(t, "…") {
+	if !strings.Contains(t, "…") && !strings.Contains(t, " literal)") {
 		return t
 	}
 	var sb strings.Builder
@@ -85,7 +85,7 @@ func nodeText(n ast.Node) string {
 	case ast.Expr:
 		return exprText(x)
 	case *ast.ExprStmt:
-		return types.ExprString(x.X)
+		return exprText(x.X)
 	case *ast.AssignStmt:
 		var l, r []string
 		for _, e := range x.Lhs {
